@@ -6,7 +6,7 @@ PROPS = {
     "C16": [("u_pkgallow", "quick"), ("u_orphan", "quick")],
     "C10": [("u_intlit", "quick"), ("u_dcefx", "quick")],
     "C07": [("u_munify", "quick"), ("u_tmono", "quick")],
-    "C15": [("u_art", "quick"), ("u_link", "quick")],
+    "C15": [("u_art", "quick"), ("u_link", "quick"), ("u_deprec", "quick")],
     "C09": [("u_dcefx", "quick"), ("u_ceffect", "quick")],
     "C11": [("u_bp", "quick")],
     "C04": [("u_mls", "quick"), ("u_input", "quick"), ("u_pcore", "quick"), ("u_tree", "quick"), ("u_kind", "quick"), ("u_grammar", "quick"), ("u_parse", "quick")],
